@@ -63,7 +63,10 @@ def _worker(task):
             for k, v in res.outcomes.items():
                 out["outcomes"][k] = out["outcomes"].get(k, 0) + v
             seen = {}
+            bad = 0
             for ob in res.obligations:
+                if bad and os.environ.get("PYVC_FAIL_FAST"):
+                    break
                 n = seen.get(ob.name, 0)
                 seen[ob.name] = n + 1
                 if n:
@@ -86,6 +89,8 @@ def _worker(task):
                         rec["cex"] = cex.extract(c, ob)
                     except Exception as ex:      # never let counterexample decoding hide the failure
                         rec["cex"] = {"error": repr(ex)}
+                if ob.status != "proved":
+                    bad += 1
                 out["obligations"].append(rec)
         # canary: the same pipeline must FAIL to prove `ensures False` on the normal-return paths
         can = verify_contract(repo, REG, c, canary=True)
@@ -95,7 +100,7 @@ def _worker(task):
             for ob in res.obligations:
                 if ob.kind == "canary":
                     ncan += 1
-                    discharge(ob, "quick", want_model=False)
+                    discharge(ob, "canary", want_model=False)
                     if ob.status == "proved":
                         proved_false.append(ob.name)
         out["canary"] = {"count": ncan, "proved_false": proved_false}
